@@ -121,7 +121,9 @@ def http_encode(r, version=b"1.0", keep_alive=False, rnd=None, fold=False, host=
             i = v.index(b" ")
             if v[:i].replace(b"\\\"", b"").count(b"\"") % 2 == 0 and v[:i].count(b"(") == v[:i].count(b")"):
                 v = v[:i] + b"\r\n" + v[i:]
-        lines.append(n + sep + v)
+        # optional white space after the value is not part of it either (RFC 7230: field-value is surrounded by OWS)
+        tail = b"" if not rnd else rnd.choice([b"", b"", b"", b" ", b"\t", b"  \t "])
+        lines.append(n + sep + v + tail)
     return b"\r\n".join(lines) + b"\r\n\r\n" + r.body
 
 
